@@ -133,6 +133,25 @@ int main(int argc, char **argv) {
             Verdict v = prime_contract<long>(p, truth); if (v.ok()) v = prime_contract<BI>(p, truth);
             if (!v.ok()) { std::cout << "REPLAY-FAIL " << v.kind << ": " << v.detail << std::endl; return 1; }
             std::cout << "REPLAY-OK" << std::endl; return 0;
+        } else if (a == "--replay-add" && i + 3 < argc) {
+            // --replay-add p "i:v,i:v" "i:v": the two operands (built from unit vectors and scalars, checked first), then a + b
+            long pl = atol(argv[i + 1]); const int dim = 16;
+            auto parse = [&](const char *txt, parmcb::SpVecFP<long> &out, std::vector<long> &dense) {
+                std::string t = txt; size_t pos = 0;
+                while (pos < t.size() && t != "-") {
+                    size_t c = t.find(':', pos), e = t.find(',', pos); if (e == std::string::npos) e = t.size();
+                    long idx = atol(t.substr(pos, c - pos).c_str()), val = atol(t.substr(c + 1, e - c - 1).c_str());
+                    if (idx < 0 || idx >= dim) { std::cout << "REPLAY-SKIP index outside the replay dimension" << std::endl; exit(0); }
+                    parmcb::SpVecFP<long> u(pl); u = (std::size_t) idx; out += u * val; dense[idx] += val;
+                    pos = e + 1;
+                }
+            };
+            parmcb::SpVecFP<long> x(pl), y(pl); std::vector<long> dx(dim, 0), dy(dim, 0), dz(dim, 0);
+            parse(argv[i + 2], x, dx); parse(argv[i + 3], y, dy);
+            Verdict v = spvecfp_matches<long>(x, dx, pl, "left operand"); if (v.ok()) v = spvecfp_matches<long>(y, dy, pl, "right operand");
+            if (v.ok()) { parmcb::SpVecFP<long> z = x + y; for (int q = 0; q < dim; q++) dz[q] = dx[q] + dy[q]; v = spvecfp_matches<long>(z, dz, pl, "a+b"); }
+            if (!v.ok()) { std::cout << "REPLAY-FAIL " << v.kind << ": " << v.detail << std::endl; return 1; }
+            std::cout << "REPLAY-OK" << std::endl; return 0;
         } else if (a == "--replay-inv" && i + 2 < argc) {
             long x = atol(argv[i + 1]), y = atol(argv[i + 2]);
             Verdict v = inv_contract<long>(x, y);
